@@ -215,6 +215,29 @@ def vfiles():
     return out
 
 
+def dep_closure(pid):
+    """Source files the property's Props file depends on (via `From PV Require Import`), plus Lib and Gen."""
+    index = {}
+    for f in vfiles():
+        index[os.path.basename(f)[:-2]] = os.path.join(COQ, f)
+    todo = [pid + "_props"]
+    seen = {}
+    while todo:
+        name = todo.pop()
+        if name in seen or name not in index:
+            continue
+        seen[name] = index[name]
+        try:
+            src = strip_comments(open(index[name]).read())
+        except OSError:
+            continue
+        for m in re.finditer(r"From\s+PV(?:\.\w+)*\s+Require\s+(?:Import|Export)?\s*([^.]*)\.", src):
+            todo += m.group(1).split()
+        for m in re.finditer(r"Require\s+(?:Import|Export)\s+((?:PV\.[\w.]+\s*)+)\.", src):
+            todo += [x.split(".")[-1] for x in m.group(1).split()]
+    return sorted(seen.values())
+
+
 def write_if_changed(path, text):
     try:
         if open(path).read() == text:
@@ -326,7 +349,7 @@ def build_proofs(pid, gens=None, extra_targets=()):
                 r.broken = "translator gen/%s.py failed (fail-closed):\n%s" % (g, err)
                 r.log += r.broken
         ensure_makefile()
-        bad = scan_forbidden([os.path.join(COQ, f) for f in vfiles()])
+        bad = scan_forbidden(dep_closure(pid))
         if bad:
             r.broken = (r.broken or "") + "forbidden constructs: " + "; ".join(bad)
         props = os.path.join(COQ, "Props", pid + "_props.v")
@@ -546,6 +569,16 @@ class Ctx:
     # -- proofs ------------------------------------------------------------
     def prove(self, gens=None, extra_targets=()):
         self.proof = build_proofs(self.pid, gens, extra_targets)
+        if self.proof.ok and self.thorough and os.environ.get("VERIF_COQCHK", "1") == "1":
+            cmd = ["timeout", "900", "coqchk", "-silent", "-o", "-Q", COQ, "PV", "PV.Props.%s_props" % self.pid]
+            p = subprocess.run(cmd, cwd=COQ, stdout=subprocess.PIPE, stderr=subprocess.STDOUT, text=True)
+            self.proof.cmds.append(" ".join(cmd))
+            tail = p.stdout[-1500:]
+            self.notes.append("coqchk -o: rc=%d; %s" % (p.returncode, tail[tail.find("CONTEXT SUMMARY"):][:1200]))
+            if p.returncode != 0:
+                self.proof.ok = False
+                self.proof.discharged = 0
+                self.proof.broken = "coqchk rejected the compiled files: " + tail
         if self.proof.ok:
             self.log("proofs: %d/%d theorems checked; axioms: %s" % (
                 self.proof.discharged, self.proof.obligations, self.proof.axioms or "none"))
